@@ -56,6 +56,8 @@ type seqHistory struct {
 	accepted   map[string]map[int]bool // (dev eui + nwk key) -> uplink counters recorded (C03)
 	queued     map[protocol.EUI][]queuedMsg
 	lastJAKeys map[protocol.EUI]string
+	refs       map[protocol.EUI]*refDev
+	search     bool // the correspondence with the model broke: keep driving the implementation alone and judge it with the reference observer
 }
 
 type queuedMsg struct {
@@ -66,14 +68,24 @@ type queuedMsg struct {
 }
 
 func (h *seqHistory) fail(kind, sig, note, impl, want string) {
-	if kind == "propfail" || !h.failed {
-		h.c.res.Add(hx.Finding{Kind: kind, Engine: "pipeseq", Signature: sig, Case: append([]pipeEvent{}, h.trace...), Impl: impl, Model: want, Spec: want, Note: note})
+	if kind == "mismatch" {
+		// the tie is broken: report it once, then keep driving the implementation alone and let the
+		// reference observer look for a history on which a property fails
+		if !h.search && !h.failed {
+			h.c.res.Add(hx.Finding{Kind: kind, Engine: "pipeseq", Signature: sig, Case: append([]pipeEvent{}, h.trace...), Impl: impl, Model: want, Spec: want, Note: note})
+		}
+		h.search = true
+		return
 	}
+	h.c.res.Add(hx.Finding{Kind: kind, Engine: "pipeseq", Signature: sig, Case: append([]pipeEvent{}, h.trace...), Impl: impl, Model: want, Spec: want, Note: note})
 	h.failed = true
 }
 
 func (h *seqHistory) lean(kind, req string) (string, error) {
 	h.trace = append(h.trace, pipeEvent{Kind: kind, Lean: req})
+	if h.search {
+		return "", nil
+	}
 	return ask1(h.c, req)
 }
 
@@ -83,6 +95,9 @@ func (h *seqHistory) compare(what string) (string, error) {
 	if err != nil {
 		h.fail("propfail", "store-unreadable", "C18/C01: reading the state back failed: "+err.Error(), err.Error(), "")
 		return "", nil
+	}
+	if h.search {
+		return impl, nil
 	}
 	m, err := ask1(h.c, "pipe.state")
 	if err != nil {
@@ -190,6 +205,7 @@ func runPipeSeq(c *ctx) error {
 			}
 			h.devs = append(h.devs, d)
 			h.euis = append(h.euis, d.eui)
+			h.ref(d).fcntDn = int(dn)
 			h.lean("dev", leanDev(d, up, dn))
 		}
 		if _, err := h.compare("population"); err != nil {
@@ -199,7 +215,13 @@ func runPipeSeq(c *ctx) error {
 		copy(gwEUI.Octets[:], r.Bytes(8))
 		nev := 8 + r.Intn(22)
 		var lastFrames [][]byte
+		extended := false
 		for ev := 0; ev < nev && !h.failed; ev++ {
+			if h.search && !extended {
+				nev += 30 // search for a failing history behind the broken correspondence
+				extended = true
+			}
+			var rev *refEvent
 			c.res.Eval()
 			d := h.devs[r.Intn(len(h.devs))]
 			h.ts += int64(1 + r.Intn(5))
@@ -218,6 +240,7 @@ func runPipeSeq(c *ctx) error {
 					return "", "", err
 				}
 				rig.takeEmitted()
+				c.inflight("pipeseq", append(append([]pipeEvent{}, h.trace...), pipeEvent{Kind: "in flight: " + kind, Frame: hx.H(raw)}))
 				if err := rig.deliver(pkt(append([]byte{}, raw...))); err != nil {
 					h.fail("propfail", "pipeline-stuck", "C11: "+err.Error(), err.Error(), "")
 					return "", "", nil
@@ -268,6 +291,18 @@ func runPipeSeq(c *ctx) error {
 					return err
 				}
 				c.res.Count("event=uplink")
+				rev = &refEvent{kind: "uplink", d: d, fc: fc, confirmed: confirmed, ackFlag: ackFlag, hasPort: ports != "none", plain: plain, dr: dr,
+					accept: fc >= d.fcntUp || d.relaxed, radio: radio, gw: hx.H(gwEUI.Octets[:])}
+				if fc > 65535 {
+					h.ref(d).exhausted = true // the 16-bit uplink counter has wrapped: every property excuses what follows
+				}
+				if h.ref(d).exhausted {
+					h.ref(d).off = true
+					rev = &refEvent{kind: "other"}
+				}
+				if fc == 65535 {
+					h.ref(d).exhausted = true // the last counter of the session: still judged, nothing after it
+				}
 				if fc >= d.fcntUp || d.relaxed {
 					if fc >= d.fcntUp {
 						d.fcntUp = (fc + 1) % 65536
@@ -379,6 +414,9 @@ func runPipeSeq(c *ctx) error {
 						_ = kv
 					}
 				}
+				if !auth {
+					rev = &refEvent{kind: "noeffect"}
+				}
 				if !auth && !h.failed {
 					after, err := rig.stateText(h.euis)
 					if err != nil {
@@ -398,11 +436,12 @@ func runPipeSeq(c *ctx) error {
 				if lerr != nil {
 					return lerr
 				}
-				if (err == nil) != (a == "ok=1") {
+				if !h.search && (err == nil) != (a == "ok=1") {
 					h.fail("mismatch", "pipe-submit", "submission accepted by one side only", fmt.Sprint(err), a)
 				}
 				if err == nil {
 					h.queued[d.eui] = append(h.queued[d.eui], m)
+					h.refSubmit(d, m)
 				}
 				c.res.Count("event=submit")
 				continue
@@ -453,6 +492,7 @@ func runPipeSeq(c *ctx) error {
 				}
 				_ = before
 				rig.takeEmitted()
+				c.inflight("pipeseq", append(append([]pipeEvent{}, h.trace...), pipeEvent{Kind: "in flight: join " + note, Frame: hx.H(raw)}))
 				if err := rig.deliver(pkt(append([]byte{}, raw...))); err != nil {
 					h.fail("propfail", "pipeline-stuck", "C11: "+err.Error(), err.Error(), "")
 					break
@@ -507,8 +547,10 @@ func runPipeSeq(c *ctx) error {
 					}
 					d.nonces[nv] = true
 				}
+				rev = &refEvent{kind: "join", d: d}
 				if honoured {
 					d.nwk, d.apps, d.addr, d.joined, d.fcntUp = sd.NwkSKey, sd.AppSKey, sd.DevAddr.ToUint32(), true, 0
+					h.ref(d).fcntDn = 0
 				}
 			case ek == 18 && r.Intn(3) == 0: // restart at a quiescent point
 				rig.carry = rig.takePublished()
@@ -529,7 +571,7 @@ func runPipeSeq(c *ctx) error {
 			}
 			// model: deliver + quiesce, then compare
 			last := h.trace[len(h.trace)-1]
-			if strings.HasPrefix(last.Lean, "pipe.deliver") {
+			if strings.HasPrefix(last.Lean, "pipe.deliver") && !h.search {
 				if _, err := ask1(c, last.Lean); err != nil {
 					return err
 				}
@@ -542,6 +584,10 @@ func runPipeSeq(c *ctx) error {
 				return err
 			}
 			h.downlinkOracles(impl)
+			if rev == nil {
+				rev = &refEvent{kind: "other"}
+			}
+			h.refCheck(rev, impl)
 		}
 		// C04: every single-bit corruption, truncation and extension of a valid join-request, one after
 		// the other, must leave no trace (the MIC covers every bit of the first 19 octets)
